@@ -106,6 +106,9 @@ class Entry:
         self.binary = binary
         self.needs_classes = needs_classes
         self.enc = enc
+        self.is_wrapper = False
+        self.bs1_only = False
+        self.loop = True
 
 
 POOL = {}
@@ -311,6 +314,27 @@ add("Clue_userdict", P.Clue, lambda s, ml=NAN: P.Clue(cluster_algo_dict={"n_init
 add("DropQuery_userdict", P.DropQuery,
     lambda s, ml=NAN: P.DropQuery(cluster_algo_dict={"n_init": 1}, missing_label=ml, random_state=s),
     lambda c: dict(clf=_ctx_clf(c)), model_arg="clf", lazy=True, feat=False)
+
+# ---- the two pool wrappers are exported pool strategies themselves: as top-level entries they take part in C01 / C02 /
+# C05 / C06 / C09 and (parallel wrapper, whose domain is batch_size = 1) in the C14 loop
+add("Sub_US", P.SubSamplingWrapper,
+    lambda s, ml=NAN: P.SubSamplingWrapper(P.UncertaintySampling(method="entropy", missing_label=ml, random_state=s),
+                                           max_candidates=0.5, missing_label=ml, random_state=s),
+    lambda c: dict(clf=_ctx_clf(c)), model_arg="clf", lazy=True)
+add("Sub_excl_RS", P.SubSamplingWrapper,
+    lambda s, ml=NAN: P.SubSamplingWrapper(P.RandomSampling(missing_label=ml, random_state=s), max_candidates=3,
+                                           exclude_non_subsample=True, missing_label=ml, random_state=s),
+    kind="both", lazy=True, domain=lambda c: "exclude_non_subsample with feature rows needs a labelled sample"
+    if (c.cmode == "feat" and c.n_labeled == 0) else None)
+add("Par_US", P.ParallelUtilityEstimationWrapper,
+    lambda s, ml=NAN: P.ParallelUtilityEstimationWrapper(P.UncertaintySampling(method="margin_sampling", missing_label=ml, random_state=s),
+                                                         n_jobs=-1, parallel_dict={"backend": "threading"}, missing_label=ml, random_state=s),
+    lambda c: dict(clf=_ctx_clf(c)), model_arg="clf", lazy=True)
+for _n in ("Sub_US", "Sub_excl_RS", "Par_US"):
+    POOL[_n].is_wrapper = True
+POOL["Par_US"].bs1_only = True          # documented domain of the parallel wrapper
+POOL["Sub_US"].loop = False             # a sub-sample smaller than the batch changes the number of cycles of an AL loop
+POOL["Sub_excl_RS"].loop = False
 
 POOL_WRAPPERS = {"SubSamplingWrapper", "ParallelUtilityEstimationWrapper"}
 POOL_NON_STRATEGY = {"multiannotator", "utils", "cost_reduction", "uncertainty_scores",
